@@ -31,6 +31,8 @@ Agreement(c, s) ==
   /\ (c.resumed = s.resumed => c.srvChainH = s.srvChainH /\ c.cltChainH = s.cltChainH)
   \* the (EC)DHE group is not among the values the property lists; where both ends report it, it must agree
   /\ (c.group # "" /\ s.group # "" => c.group = s.group)
+  \* whether and how a pre-shared key entered the key schedule
+  /\ c.pskMode = s.pskMode
 
 \* ---- WithinPolicy of ONE side
 SuiteAllowed(st, t, ver) ==
@@ -68,6 +70,8 @@ WithinPolicy(st, v, isClient) ==
   \* the server checks the size of the client's key when it authenticated with a certificate
   /\ (~isClient /\ v.cltKeyBits > 0 => (v.cltKeyBits >= st.minKey /\ v.cltKeyBits <= st.maxKey))
   /\ (v.alpn # "" => \E i \in 1..Len(st.alpn) : st.alpn[i] = v.alpn)
+  \* a PSK is combined with a key exchange mode this side allows (psk_ke gives up forward secrecy)
+  /\ (v.pskMode # "" => v.pskMode \in st.pskModes)
 
 \* record size limits as RFC 8449 defines them from the two settings
 LimitToward(receiverRsl, senderRsl, ver) ==
